@@ -17,12 +17,16 @@
                    true  : with fixes/C03-discard-pending-on-last-match-stopped.patch
        v_lexname = false : PolKVLess breaks ties on the string "name/namespace/kind" (pinned);
                    true  : tie-break on name, then namespace, then kind.
+       v_resetact = false: deleting a tier that policies still name keeps the entry's DefaultAction (pinned);
+                   true  : with fixes/C01-deleted-tier-resets-default-action.patch it is reset to "".
    No proofs in this file. *)
 From Coq Require Import List NArith ZArith Bool.
 From Verif.Common Require Import Labels.
 Import ListNotations.
 
-Record variant := mkVariant { v_fixed : bool; v_lexname : bool }.
+Record variant := mkVariant3 { v_fixed : bool; v_lexname : bool; v_resetact : bool }.
+(* the two-flag form used by the witnesses: tier deletion as pinned (keeps the default action) *)
+Definition mkVariant (fx lx : bool) : variant := mkVariant3 fx lx false.
 
 (* ------------------------------------------------------------------ keys, orders, metadata *)
 
@@ -172,7 +176,7 @@ Definition tier_holding (s : sorter) (k : pkey) : option tinfo :=
 Record tierval := mkTier { tv_order : order; tv_action : N }.
 
 (* OnUpdate for a model.TierKey *)
-Definition sorter_tier_update (s : sorter) (name : bytes) (val : option tierval) : sorter :=
+Definition sorter_tier_update (v : variant) (s : sorter) (name : bytes) (val : option tierval) : sorter :=
   match val with
   | Some tv =>
       match alookup bytes_eqb name (so_tiers s) with
@@ -189,7 +193,8 @@ Definition sorter_tier_update (s : sorter) (name : bytes) (val : option tierval)
       | None => s
       | Some old =>
           let srt := bt_delete tier_less (tkey_of old) (so_sorted s) in
-          let t := mkTI (ti_name old) false None (ti_action old) (ti_pols old) (ti_sorted old) in
+          let t := mkTI (ti_name old) false None (if v_resetact v then 0%N else ti_action old)
+                        (ti_pols old) (ti_sorted old) in
           match ti_pols old with
           | [] => mkSorter (adel bytes_eqb name (so_tiers s)) srt
           | _ => mkSorter (aset bytes_eqb name t (so_tiers s)) (bt_insert tier_less (tkey_of t) srt)
@@ -352,7 +357,7 @@ Definition step (v : variant) (s : st) (o : op) : st * list epout :=
       else (mkSt (p2e s) (e2p s) allpol' (eps s) (dirty s) pend (srt s) (insync s), [])
   | TierUpd name val =>
       (mkSt (p2e s) (e2p s) (allpol s) (eps s) (ep_add_all (map fst (e2p s)) (dirty s)) (pending s)
-            (sorter_tier_update (srt s) name val) (insync s), [])
+            (sorter_tier_update v (srt s) name val) (insync s), [])
   | EpUpd e present =>
       let eps' := if present then ep_add e (eps s) else filter (fun x => negb (N.eqb e x)) (eps s) in
       (mkSt (p2e s) (e2p s) (allpol s) eps' (ep_add e (dirty s)) (pending s) (srt s) (insync s), [])
